@@ -2,7 +2,9 @@
 import itertools
 import json
 
-from core.exact import Poly
+from fractions import Fraction
+
+from core.exact import Poly, rs
 from core.runner import Prop
 from . import mp_common as mp
 
@@ -56,7 +58,7 @@ class C16(Prop):
         for n in range(1, 6 if q else 7):
             yield {"kind": "QQ", "n": n}
 
-    def gen(self, rng, i, tier):
+    def gen0(self, rng, i, tier):
         if rng.random() < 0.4:
             tau = rng.randint(3, 5 if tier == "quick" else 6)
             pool = rng.randint(1, 3)
@@ -81,6 +83,32 @@ class C16(Prop):
         k = rng.randint(0, min(len(edges), 4))
         return {"kind": "nocg", "nodes": nodes, "edges": edges, "ak": ak, "i": focal, "k": k}
 
+    @staticmethod
+    def _num(x, pt):
+        x = Fraction(x)
+        if x == 0:
+            return 0 if pt["zero_as"] == "int" else Fraction(0) if pt["zero_as"] == "fraction" else 0.0
+        return 1 if (x == 1 and pt["zero_as"] == "int") else x
+
+    @staticmethod
+    def _points(rng, n_hs):
+        pts = []
+        for _ in range(2):
+            hs = []
+            for _ in range(max(1, n_hs)):
+                r = rng.random()
+                hs.append("0" if r < 0.3 else "1" if r < 0.45 else rs(Fraction(rng.randint(1, 6), 7)))
+            pts.append({"phi": rng.choice(["0", "1", "1/3", "1/2", "3/4"]), "hs": hs, "zero_as": rng.choice(["int", "fraction", "float"])})
+        return pts
+
+    def gen(self, rng, i, tier):
+        c = self.gen0(rng, i, tier)
+        if c.get("kind") == "clique" and 2 <= c["tau"] <= 6:
+            c["points"] = self._points(rng, c["tau"] - 1)
+        elif c.get("kind") == "cycle" and c["n"] <= 10:
+            c["points"] = self._points(rng, 1)
+        return c
+
     def impl(self, case):
         from gcmpy.message_passing.equations.clique_equation import clique_equation
         from gcmpy.message_passing.equations.chordless_cycle_equation import chordless_cycle_equation
@@ -89,9 +117,16 @@ class C16(Prop):
         if k == "clique":
             tau = case["tau"]
             Hs = [mp.uvar(i) for i in case.get("hs", range(tau - 1))]
-            return {"poly": mp.poly_canon(clique_equation(tau, mp.pvar(), Hs))}
+            o = {"poly": mp.poly_canon(clique_equation(tau, mp.pvar(), Hs))}
+            # numeric points at the ends of the ranges: neighbour values exactly 0 or 1, phi 0 or 1
+            o["numeric"] = [repr(float(clique_equation(tau, Fraction(pt["phi"]), [self._num(x, pt) for x in pt["hs"]])))
+                            for pt in case.get("points", [])]
+            return o
         if k == "cycle":
-            return {"poly": mp.poly_canon(chordless_cycle_equation(case["n"], mp.uvar(0), mp.pvar()))}
+            o = {"poly": mp.poly_canon(chordless_cycle_equation(case["n"], mp.uvar(0), mp.pvar()))}
+            o["numeric"] = [repr(float(chordless_cycle_equation(case["n"], self._num(pt["hs"][0], pt), Fraction(pt["phi"]))))
+                            for pt in case.get("points", [])]
+            return o
         if k == "Qrow":
             n = case["n"]
             ncg.Q.cache_clear()
@@ -110,7 +145,7 @@ class C16(Prop):
 
     def request(self, case, obs):
         r = {"op": "c16"}
-        r.update(case)
+        r.update({k: v for k, v in case.items() if k != "points"})
         return r
 
     def model(self, case, reply, obs):
@@ -127,7 +162,7 @@ class C16(Prop):
             return {"row": obs["row"]}
         if case["kind"] == "nocg":
             return {"count": obs["count"]}
-        return obs
+        return {k: v for k, v in obs.items() if k != "numeric"}
 
     def oracle(self, case, obs):
         if "exc" in obs:
@@ -144,6 +179,11 @@ class C16(Prop):
             want = mp.exact_expectation(nodes, edges, 0, u_of=lambda v: mp.uvar(hs[v - 1]))
             if obs["poly"] != mp.poly_canon(want):
                 f.append(f"clique: clique equation for tau={tau} differs from the exact expectation on K_tau as a polynomial")
+            for pt, got in zip(case.get("points", []), obs.get("numeric", [])):
+                w = mp.exact_numeric(nodes, edges, 0, {v: Fraction(pt["hs"][v - 1]) for v in nodes if v}, Fraction(pt["phi"]))
+                if abs(Fraction(float(got)) - w) > Fraction(1, 10 ** 9):
+                    f.append(f"clique-at-point: tau={tau}, phi={pt['phi']}, Hs={pt['hs']}: value {got}, exact expectation {float(w)}")
+                    break
         elif k == "cycle":
             n = case["n"]
             if n > 12:
@@ -153,6 +193,11 @@ class C16(Prop):
             want = mp.exact_expectation(nodes, edges, 0, u_of=lambda v: mp.uvar(0))
             if obs["poly"] != mp.poly_canon(want):
                 f.append(f"cycle: cycle equation for n={n} differs from the exact expectation on C_n as a polynomial")
+            for pt, got in zip(case.get("points", []), obs.get("numeric", [])):
+                w = mp.exact_numeric(nodes, edges, 0, {v: Fraction(pt["hs"][0]) for v in nodes if v}, Fraction(pt["phi"]))
+                if abs(Fraction(float(got)) - w) > Fraction(1, 10 ** 9):
+                    f.append(f"cycle-at-point: n={n}, phi={pt['phi']}, u={pt['hs'][0]}: value {got}, exact expectation {float(w)}")
+                    break
         elif k in ("Qrow", "QQ"):
             n = case["n"]
             if n <= 5 or (n == 6 and len(obs["row"]) <= 16 and k == "QQ"):
